@@ -16,6 +16,11 @@
 (***************************************************************************)
 EXTENDS TombLog, Json, IOUtils, TLCExt
 
+\* the run was recorded on an engine with several flushers: the tombstones of one flushed batch (at most TSlack)
+\* are not appended in sequence order, so up to TSlack more of the oldest may already be overwritten.  The ring
+\* itself is kept in the idealised sequence order here (Flushers = 1 in the configuration of this module)
+CONSTANT TSlack
+
 VARIABLES l, bad, reins
 
 tvars == <<vars, l, bad, reins>>
@@ -24,7 +29,7 @@ Rec == ndJsonDeserialize(IOEnv.TRACE)
 
 MustBeAbsent(k) ==
     /\ deleted[k] # 0
-    /\ \E i \in 1 .. Len(hist) : hist[i] = deleted[k] /\ i > Len(hist) - (Cap - 1)
+    /\ \E i \in 1 .. Len(hist) : hist[i] = deleted[k] /\ i > Len(hist) - (Cap - 1 - TSlack)
 
 TraceInit == Init /\ l = 1 /\ bad = {} /\ reins = {}
 
@@ -35,12 +40,12 @@ TraceNext ==
               /\ ring' = [x \in 0 .. Cap - 1 |-> Empty] /\ slot' = 1 /\ bufPage' = 0
               /\ buf' = [i \in 0 .. SlotsPerPage - 1 |-> Empty]
               /\ seq' = e.n + 1          \* the N loaded entries took sequences 0..N-1 (+1: ours start at 1)
-              /\ deleted' = [k \in 1 .. NKeys |-> 0] /\ hist' = <<>> /\ open' = TRUE
+              /\ deleted' = [k \in 1 .. NKeys |-> 0] /\ hist' = <<>> /\ lastpos' = Cap /\ open' = TRUE
               /\ bad' = {} /\ reins' = {}
          [] e.a = "del" -> AppendBatch(e.ks) /\ bad' = {} /\ reins' = reins \ {e.ks[i] : i \in DOMAIN e.ks}
          [] e.a = "reins" ->
               /\ deleted' = [deleted EXCEPT ![e.k] = 0] /\ seq' = seq + 1 /\ reins' = reins \cup {e.k}
-              /\ UNCHANGED <<ring, slot, bufPage, buf, hist, open>> /\ bad' = {}
+              /\ UNCHANGED <<ring, slot, bufPage, buf, hist, lastpos, open>> /\ bad' = {}
          [] e.a = "reopen" -> Reopen /\ bad' = {} /\ UNCHANGED reins
          [] e.a = "probe" ->
               /\ UNCHANGED <<vars, reins>>
